@@ -194,6 +194,60 @@ def check_exhaust(ctx, db):
     ctx.require('R-EXHAUST switches', n, 5)
 
 
+def check_gradient(ctx, db):
+    """SubPath::gradient is the symbolic derivative of SubPath::eval with respect to u (per section type),
+    and both apply the same linear part of the path transform."""
+    from .. import symdiff
+    ev, gr = db.fn('gdstk::SubPath::eval'), db.fn('gdstk::SubPath::gradient')
+    ctx.touch(ev)
+    ctx.touch(gr)
+    names = {c['v']: c['n'] for c in db.enum('gdstk::SubPathType')['consts']}
+
+    def arms(f):
+        sw = next((s_ for s_ in f.walk() if s_.k == 'SwitchStmt' and norm(s_.child('cond').text()).endswith('type')), None)
+        if sw is None:
+            raise AnalysisBroken('%s: switch over the section type not found' % f.qn)
+        out = {}
+        for labels, stmts, top in tables.switch_arms(sw):
+            for l in labels:
+                out[names.get(l, l)] = (stmts, top)
+        return out, sw
+    ae, swe = arms(ev)
+    ag, swg = arms(gr)
+    n = 0
+    for kind in ('Segment', 'Arc', 'Bezier2', 'Bezier3'):
+        A = symdiff.Algebra(db, 'u')
+        try:
+            p = A.block(ae[kind][0], {}, 'point')
+            g = A.block(ag[kind][0], {}, 'grad')
+        except (symdiff.Unsupported, KeyError) as e:
+            raise AnalysisBroken('SubPath %s arm is outside the algebra: %s' % (kind, e))
+        n += 1
+        dp = A.d(p)
+        ctx.check(p is not None and g is not None and A.equal(dp, g), 'R-DERIV', 'SubPath::gradient/%s' % kind, ag[kind][1].loc(), 'd/du of the %s position is identically the %s gradient (polynomial identity over sin/cos atoms)' % (kind, kind),
+                  'the %s gradient is not the derivative of the %s position: d(eval)/du = %s, gradient = %s' % (kind, kind, A.render(dp)[:300], A.render(g)[:300]))
+    ctx.require('R-DERIV section kinds', n, 4)
+    # transform: eval applies the affine map, gradient its linear part
+    def tail(f, sw, var):
+        body = [s_ for s_ in f.body.c if s_ is not None]
+        A = symdiff.Algebra(db, 'u')
+        env = {var: A.vec(symdiff.atom('X'), symdiff.atom('Y'))}
+        return A, A.block(body[body.index(sw) + 1:], env, 'return')
+    try:
+        A1, r1 = tail(ev, swe, 'point')
+        A2, r2 = tail(gr, swg, 'grad')
+        lin = A1.vadd(r1, A1.vec(symdiff.atom('trafo[2]'), symdiff.atom('trafo[5]')), -1)
+        ok = A1.equal(lin, r2)
+    except symdiff.Unsupported as e:
+        raise AnalysisBroken('SubPath transform tail is outside the algebra: %s' % e)
+    ctx.check(ok, 'R-DERIV', 'SubPath::gradient/transform-linear-part', gr.loc(), 'the gradient is mapped by the linear part of the transform that eval applies (trafo[0,1,3,4]; no translation)')
+    # extrapolation outside [0, 1] is linear along the end gradients
+    pre = [i for i in ev.body.c if i is not None and i.k == 'IfStmt']
+    t = [norm(clone.canon(i, ev)) for i in pre[:2]]
+    ok = len(t) == 2 and 'this->eval(0, p1)' in t[0] and 'this->gradient(0, p1)' in t[0] and '(v0 + (v1 * p0))' in t[0] and 'this->eval(1, p1)' in t[1] and '(v0 + (v1 * (p0 - 1)))' in t[1] and 'this->gradient(1, p1)' in t[1]
+    ctx.check(ok, 'R-SHAPE', 'SubPath::eval/linear-extrapolation', ev.loc(), 'below 0 and above 1 the position continues along the end gradient', 'extrapolation blocks: %s' % t)
+
+
 def run(ctx):
     db = ctx.db
     check_bookkeeping(ctx, db)
@@ -205,8 +259,13 @@ def run(ctx):
         ctx.touch(f)
         np_ += parallel.check_function(ctx, f)
     ctx.require('R-PARALLEL look-ahead iterators', np_, 9)
+    ns_ = 0
+    for name in ('to_polygons', 'element_center', 'spine'):
+        ns_ += parallel.check_steps(ctx, db.fn('gdstk::RobustPath::' + name))
+    ctx.require('R-PARALLEL joint cursor jumps', ns_, 2)
     check_units(ctx, db)
     check_exhaust(ctx, db)
+    check_gradient(ctx, db)
     f = db.fn('gdstk::RobustPath::commands')
     ctx.touch(f)
     n, table = consume.check_commands(ctx, f)
@@ -215,7 +274,7 @@ def run(ctx):
 
 
 MANIFEST = dict(
-    text='Decides structural necessary conditions of RobustPath consistency on every path: each section append is followed by exactly one fill_widths_and_offsets, which gives every element one width and one offset entry on all four branch combinations; no builder reads the path transform (frame discipline); the four point samplers, the four intersection searches and the four parameter-query prologues are clone families evaluating only their own side, with the sampler step clamped to the section end; look-ahead iterators advance with their loops in to_polygons/element_center/spine; the OASIS PATH half-width is half and the GDSII WIDTH the full interpolated width; SubPathType/InterpolationType/EndType switches are exhaustive (defaults frozen); RobustPath::commands consumes exactly the operands its guard and advance constants state. Sampling accuracy, intersection convergence and cap geometry are not decided.',
+    text='Decides structural necessary conditions of RobustPath consistency on every path: each section append is followed by exactly one fill_widths_and_offsets, which gives every element one width and one offset entry on all four branch combinations; no builder reads the path transform (frame discipline); the four point samplers, the four intersection searches and the four parameter-query prologues are clone families evaluating only their own side, with the sampler step clamped to the section end; look-ahead iterators advance with their loops in to_polygons/element_center/spine and the trailing cursors of the parallel section/offset/width arrays jump together; the OASIS PATH half-width is half and the GDSII WIDTH the full interpolated width; SubPathType/InterpolationType/EndType switches are exhaustive (defaults frozen); RobustPath::commands consumes exactly the operands its guard and advance constants state; SubPath::gradient is, symbolically, the derivative of SubPath::eval for segment, arc, quadratic and cubic sections, under the same linear transform. Sampling accuracy, intersection convergence and cap geometry are not decided.',
     note='Trusted: clang front end, gx, sa rules. The direct-builder set is discovered (methods appending to subpath_array) and compared with the confirmed list, so a new builder is reported until it is paired and listed.',
     technique='post-dominance pairing over the CFG + who-may-read effect rule + clone families with callee abstraction + look-ahead iterator rule + operand-consumption tables',
     design='§4 C08')
